@@ -66,6 +66,13 @@ def build_corpus(tier, rng):
         it = Item("E", vs, metas=[EM("pety", "PErr"), EM("pefn", fn)] + ([EM("sall", "kebab-case")] if j else []))
         it.in_fn_body = True
         cands.append(("fn-body", it))
+    # enum, derive and #[strum(parse_err_ty = $t, parse_err_fn = $f)] come out of a macro_rules! expansion, type and function handed in by the
+    # CALLER (`ty` / `path` fragments): the generated `f(s)` mixes the caller's hygiene context with the derive's (seed C18_r15)
+    for j, (mode, fn) in enumerate(((True, "perr_a"), ("idents", "perr::b"), (True, "perr::b"))):
+        vs = [Variant("Red", "unit"), Variant("Blue", "tuple", [Field("u8")], [ser("b%d" % j)]), Variant("DarkGreen", "unit", [], [aci(True, explicit=False)])]
+        it = Item("E", vs, metas=[EM("pety", "PErr"), EM("pefn", fn)] + ([EM("phf")] if False else []))
+        it.via_macro = mode
+        cands.append(("via-macro", it))
     for it in c01.systematic(rng):
         it.variants = [v for v in it.variants if not v.has("default")]
         it.metas = [m for m in it.metas if m.kind not in ("pety", "pefn")] + [EM("pefn", "perr::b"), EM("pety", "PErr")]
